@@ -469,10 +469,16 @@ impl<'a> Lexer<'a> {
             // Currently miette silently fails to display a label
             // if the span is at the end of the source; this means
             // we can't properly show the "end of input" span.
-            // For now, have the span point at the last byte in the source.
+            // For now, have the span point at the last character in the source
+            // (an empty span if the source is empty).
             // See: https://github.com/zkat/miette/issues/219
-            span.start = span.start.saturating_sub(1);
-            span.end = span.start + 1;
+            let source = self.0.source();
+            let mut start = span.start.saturating_sub(1).min(source.len());
+            while !source.is_char_boundary(start) {
+                start -= 1;
+            }
+            span.start = start;
+            span.end = start + source[start..].chars().next().map_or(0, char::len_utf8);
         }
 
         to_source_span(span)
